@@ -238,6 +238,14 @@ def g_set_property(w, rng, st):
         return None
     kind, ref, nid = t
     names = [n for n in settable(kind) if n not in NOT_GENERATED]
+    if w.prop == 'C11' and rng.random() < 0.12:
+        # node kinds that usually carry no capacities (switches, NAS) given some: every node's CPU/RAM/disk counts
+        odd = [tt for tt in element_targets(st) if tt[0] == 'node' and st.typ(tt[2]) in ('Switch', 'NAS', 'Container')]
+        if odd:
+            kind, ref, nid = rng.choice(odd)
+            v = gen_value(rng, 'capacities', 'node')
+            if v is not None:
+                return {'kind': kind, 'ref': ref, 'name': 'capacities', 'val': v}
     if rng.random() < 0.3:
         # overwrite something that already has a value with a DIFFERENT one (a raised flag lowered again, a list
         # made shorter, ...): reading back must give the new value, not a blend with the old
